@@ -121,6 +121,10 @@ func main() {
 					if n > C {
 						segSets = append(segSets, []int{C, 0, C}, []int{C - 1, 2})
 					}
+					if n > 0 && n%C == 0 {
+						// everything, then an empty Write while the buffer holds exactly one full chunk
+						segSets = append(segSets, []int{n, 0}, []int{n, 0, 0})
+					}
 					for si, segs := range segSets {
 						id := fmt.Sprintf("%s/n%d/a%v/s%d", lname, n, armored, si)
 						if !c.Want(id) {
